@@ -274,6 +274,30 @@ def run(ctx):
         C.correspond(ctx, "malformed-" + mode, bad, [exe], drv,
                      lambda c, o: None if o == "bad-op" else "malformed case accepted",
                      lambda c, o, why: {"op": "parse", "kind": "malformed"})
+        # the assumption "identity sq_array, as setup_io_uring writes it", observed on the running kernel
+        probes = ["sqarray %d %d" % (e, f) for e in ([1, 2, 3, 8, 64, 100] if quick else [1, 2, 3, 4, 5, 8, 16, 64, 100, 1000, 4096])
+                  for f in (0, 1 << 10, 1 << 11)]
+        _, pouts, _ = C.run_filter([exe], probes)
+        ctx.evaluations += len(probes)
+        seen_rings = 0
+        for c_, o_ in zip(probes, pouts + ["no-output"] * (len(probes) - len(pouts))):
+            if o_.startswith("setup-err"):
+                continue            # this kernel / sandbox refuses the ring (or the flag combination)
+            w_ = o_.split()
+            why = None
+            if w_[0] != "arr" or len(w_) != 3:
+                why = "no SQ index array observed: " + o_[:80]
+            else:
+                n_ = int(w_[1])
+                got = [int(x) for x in w_[2].split(",")]
+                seen_rings += 1
+                if got != list(range(n_)):
+                    k_ = next(i for i, (x, y) in enumerate(zip(got, range(n_))) if x != y)
+                    why = "sq_array[%d] = %d after setup_io_uring (ring of %d entries): submission slot %d hands the kernel SQE %d" % (k_, got[k_], n_, k_, got[k_])
+            if why:
+                ctx.violation({"op": "setup-sq-array", "kind": why.split(" ")[0]},
+                              {"case": c_, "implementation": o_[:300], "why": why, "how_to_replay": "echo '%s' | %s" % (c_, exe)})
+        ctx.extra.setdefault("sq_array_probe", {})[mode] = {"probes": len(probes), "rings_created": seen_rings}
         if not release:
             _, outs, _ = C.run_filter([exe], cases)
             coverage(ctx, cases, outs)
